@@ -278,6 +278,10 @@ class Interp:
         self.effects = []        # recorded effects (C20 call traces)
         self.notes = {}          # per-path notes of models / loop cutting (attached to the PathResult)
 
+    def mutated_in_place(self, value):
+        """Was this (functionally modelled) list / dict / array value the receiver of an in-place mutation on the current path?"""
+        return any(v is value for v in self.notes.get('mutated_in_place', []))
+
     def module(self, relpath):
         if relpath not in self.modules:
             self.modules[relpath] = Module(self.repo, relpath)
@@ -297,7 +301,12 @@ class Interp:
         if key in self.obligations:
             return
         full = name if not self.trace else name + "@" + ''.join(str(int(d)) for d in self.trace)
-        ob = Obligation(full, list(self.pc), goal, kind, info)
+        hyps = list(self.pc)
+        if z3.is_false(goal):
+            # a structural obligation ("this path must not do X", and it did): what is left to decide is whether the path is reachable, and that is
+            # decided the way the explorer decides it at every branch -- on the quantifier-free part of the path condition
+            hyps = [h for h in hyps if not _has_quant(h)]
+        ob = Obligation(full, hyps, goal, kind, info)
         ob.base = name
         self.obligations[key] = ob
         self.ob_order.append(key)
